@@ -62,6 +62,9 @@ type Plan struct {
 	FailCASWrite int    `json:"failCasWrite,omitempty"` // real handler: the k-th CAS write of the batch fails
 	FailAnchor   bool   `json:"failAnchor,omitempty"`
 	AddDuring    []Step `json:"addDuring,omitempty"` // submissions arriving while the batch is in flight
+	// StopDuring: the node shuts the writer down (Stop) while the anchor of this batch is being written; a new writer
+	// over the same queue takes over after the step (restart). What the old writer had accepted must not be lost.
+	StopDuring bool `json:"stopDuring,omitempty"`
 }
 
 // Case is a schedule.
@@ -138,6 +141,7 @@ type mop struct {
 
 // world wires a real writer over real cutter + MemQueue with an observing handler / anchor writer.
 type world struct {
+	restart bool // the writer was stopped during the current step; a new one takes over afterwards
 	c       *Case
 	w       *batch.Writer
 	q       *opqueue.MemQueue
@@ -248,6 +252,14 @@ func (a anchorWriter) WriteAnchor(anchor string, _ []*protocol.AnchorDocument, r
 	}
 	w.queue = append(w.queue, tail...)
 	w.inflight = nil
+	if plan.StopDuring && w.dh == nil {
+		w.w.Stop()
+		w.restart = true
+		w.features["stopped-during-batch"] = true
+		if len(tail) > 0 {
+			w.features["stopped-with-deferred-operation"] = true
+		}
+	}
 	return nil
 }
 
@@ -469,6 +481,14 @@ func (w *world) tick(force bool, plans []Plan) {
 		w.fail("batch writer panicked: %s", pn)
 	}
 	w.cas.FailWrite = nil
+	if w.restart {
+		// the node comes up again: a new writer over the same operation queue
+		bw, err := batch.New(ns, ctx{w}, batch.WithBatchTimeout(time.Hour), batch.WithMonitorInterval(time.Hour))
+		if err != nil {
+			panic(err)
+		}
+		w.w, w.restart = bw, false
+	}
 }
 
 // check compares the model queue with the real queue and the conservation law.
@@ -637,6 +657,9 @@ func TestWriterStateMachine(t *testing.T) {
 						}
 					case 1:
 						p.FailAnchor = true
+					case 2:
+						// the node is shut down while this batch's anchor is written and restarted after the step
+						p.StopDuring = !c.ViaHandler && rapid.Bool().Draw(t, "stopDuring")
 					}
 					for k := 0; k < rapid.IntRange(0, 2).Draw(t, "addDuring"); k++ {
 						p.AddDuring = append(p.AddDuring, drawAdd(t, &cur))
